@@ -145,6 +145,7 @@ structure Inst where
   out : Out := .ret
   fwdDone : Bool := false            -- forwarding instance has issued its dispatch
   iters : Nat := 0                   -- iterations of the inline polling loop of the current await
+  yields : Nat := 0                  -- ... of which ended in a suspension (every pass ends in at most one)
   cancelling : Bool := false         -- the handler task has been cancelled (deadline / executor cancelled); the body may still clean up
   deriving Repr, Inhabited
 
